@@ -77,6 +77,8 @@ func mapRangeOrderFree(c *core.Ctx, info *types.Info, d *ast.FuncDecl, rs *ast.R
 		}
 	}
 	var checkStmt func(s ast.Stmt)
+	earlyReturn := false
+	inLit := 0
 	visitedLits := map[*ast.FuncLit]bool{}
 	isLocal := func(o types.Object) bool {
 		if o == nil {
@@ -131,13 +133,17 @@ func mapRangeOrderFree(c *core.Ctx, info *types.Info, d *ast.FuncDecl, rs *ast.R
 					for _, a := range ce.Args {
 						if fl, ok := ast.Unparen(a).(*ast.FuncLit); ok && !visitedLits[fl] {
 							visitedLits[fl] = true
+							inLit++
 							checkStmt(fl.Body)
+							inLit--
 						}
 					}
 					if sel, ok := ast.Unparen(ce.Fun).(*ast.SelectorExpr); ok {
 						if fl := enclosingLitWithParam(d, ce, identObj(info, sel.X), info); fl != nil && !visitedLits[fl] {
 							visitedLits[fl] = true
+							inLit++
 							checkStmt(fl.Body)
+							inLit--
 						}
 					}
 					reasons = append(reasons, "tree traversal whose visitor closure is order-independent")
@@ -276,6 +282,9 @@ func mapRangeOrderFree(c *core.Ctx, info *types.Info, d *ast.FuncDecl, rs *ast.R
 				}
 			}
 			reasons = append(reasons, "returns a loop-independent value")
+			if inLit == 0 { // a return inside a visitor closure ends that callback, not the loop
+				earlyReturn = true
+			}
 		default:
 			bad = fmt.Sprintf("statement %T not classified", s)
 		}
@@ -283,6 +292,19 @@ func mapRangeOrderFree(c *core.Ctx, info *types.Info, d *ast.FuncDecl, rs *ast.R
 	checkStmt(rs.Body)
 	if bad != "" {
 		return bad, false
+	}
+	// a return that stops the iteration is order-independent only when nothing else the body does
+	// can differ between orders: with any accumulated effect, what has been done when the loop
+	// stops depends on which entries were met first
+	if earlyReturn {
+		for _, r := range reasons {
+			if r != "returns a loop-independent value" {
+				return "stops at the first matching entry although the body also has effects (" + r + "): the entries handled before the stop depend on map order", false
+			}
+		}
+		if len(collected) > 0 {
+			return "stops at the first matching entry although the body also collects values", false
+		}
 	}
 	// every collected slice must be sorted before any other use after the loop
 	for o := range collected {
